@@ -66,6 +66,7 @@ impl<'a> PartialEqSpecImpl<&'a Str> for Str {
 /// lexicographic order on strings (`Ord for String`): uninterpreted total order
 pub uninterp spec fn str_cmp(a: Seq<char>, b: Seq<char>) -> core::cmp::Ordering;
 pub uninterp spec fn str_lower(s: Seq<char>) -> Seq<char>;
+pub uninterp spec fn str_eq_nocase(s: Seq<char>, o: Seq<char>) -> bool;
 pub uninterp spec fn str_ends_with(s: Seq<char>, o: Seq<char>) -> bool;
 pub uninterp spec fn str_starts_with(s: Seq<char>, o: Seq<char>) -> bool;
 pub uninterp spec fn str_upper(s: Seq<char>) -> Seq<char>;
@@ -81,6 +82,11 @@ impl Str {
     #[verifier::when_used_as_spec(spec_starts_with)]
     pub fn starts_with(&self, o: &Str) -> (r: bool) ensures r == self.spec_starts_with(o) { unimplemented!() }
     pub open spec fn spec_starts_with(&self, o: &Str) -> bool { str_starts_with(self@, o@) }
+    /// `str::eq_ignore_ascii_case`: uninterpreted relation of the two texts
+    #[verifier::external_body]
+    #[verifier::when_used_as_spec(spec_eq_ignore_ascii_case)]
+    pub fn eq_ignore_ascii_case(&self, o: &Str) -> (r: bool) ensures r == self.spec_eq_ignore_ascii_case(o) { unimplemented!() }
+    pub open spec fn spec_eq_ignore_ascii_case(&self, o: &Str) -> bool { str_eq_nocase(self@, o@) }
     /// `str::to_lowercase` / `to_uppercase`: uninterpreted functions of the text
     #[verifier::external_body]
     pub fn to_lowercase(&self) -> (r: Str) ensures r@ == str_lower(self@) { unimplemented!() }
